@@ -1,17 +1,17 @@
 #!/bin/sh
-# tools/seedcheck.sh <property> <i> [runs]   -- confirm a sub-agent's seeded change and run the property's check on it.
+# tools/seedcheck.sh <property> <i> [source worktree] [index to record under] [runs]   -- confirm a sub-agent's seeded change and run the property's check on it.
 # Reads /tmp/seed-<property>/mutants/m<i>.{diff,md}, m<i>_demo.py; writes /verif/seeded/<property>-m<i>/ when confirmed.
-pid=$1; i=$2; runs=$3
-src=/tmp/seed-$pid/mutants
-wt=/tmp/sc-$pid-m$i-$$
-out=/verif/seeded/$pid-m$i
+pid=$1; i=$2; srcdir=${3:-/tmp/seed-$pid}; oi=${4:-$i}; runs=$5
+src=$srcdir/mutants
+wt=/tmp/sc-$pid-m$oi-$$
+out=/verif/seeded/$pid-m$oi
 [ -f "$src/m$i.diff" ] || { echo "no $src/m$i.diff"; exit 2; }
 git -C /repo worktree add -q --detach "$wt" HEAD || exit 2
 cleanup() { git -C /repo worktree remove --force "$wt"; }
 cp "$src/m${i}_demo.py" "$wt/_demo.py"
 ( cd "$wt" && PYTHONPATH="$wt" timeout 120 /venv/bin/python _demo.py >/dev/null 2>&1 ); clean_rc=$?
 if ! git -C "$wt" apply "$src/m$i.diff" 2>/dev/null; then
-  git -C "$wt" apply --3way "$src/m$i.diff" 2>/dev/null || { echo "[$pid-m$i] patch does not apply to current HEAD"; cleanup; exit 3; }
+  git -C "$wt" apply --3way "$src/m$i.diff" 2>/dev/null || { echo "[$pid-m$oi] patch does not apply to current HEAD"; cleanup; exit 3; }
 fi
 tests=$(cd "$wt" && timeout 600 /venv/bin/python -m pytest -q -p no:cacheprovider 2>&1 | tail -1)
 ( cd "$wt" && PYTHONPATH="$wt" timeout 120 /venv/bin/python _demo.py >/tmp/sc-demo-$$.txt 2>&1 ); mut_rc=$?
@@ -20,8 +20,8 @@ if [ -n "$runs" ]; then extra="--runs $runs"; else extra="--tier quick"; fi
 chk=$(cd /verif && CINCO_SRC="$wt" ./check "$pid" $extra --no-evidence 2>&1); chk_rc=$?
 nviol=$(echo "$chk" | grep -c '^VIOLATION')
 sigs=$(echo "$chk" | grep 'signature=' | sed 's/ step=.*//; s/.*signature=//' | sort -u | head -5 | tr '\n' ';')
-echo "[$pid-m$i] demo clean rc=$clean_rc, demo with change rc=$mut_rc, tests: $tests"
-echo "[$pid-m$i] check rc=$chk_rc violations=$nviol sigs=$sigs"
+echo "[$pid-m$oi] demo clean rc=$clean_rc, demo with change rc=$mut_rc, tests: $tests"
+echo "[$pid-m$oi] check rc=$chk_rc violations=$nviol sigs=$sigs"
 echo "$chk" | grep "HARNESS" | head -3
 ok=1
 [ "$clean_rc" = 0 ] || ok=0
@@ -32,7 +32,7 @@ if [ $ok = 1 ]; then
   git -C "$wt" diff > "$out/patch.diff"
   cp "$src/m${i}_demo.py" "$out/demo.py"
   cp "$src/m$i.md" "$out/README.md" 2>/dev/null
-  /venv/bin/python - "$pid" "$i" "$tests" "$chk_rc" "$nviol" "$sigs" "$out" <<'PY'
+  /venv/bin/python - "$pid" "$oi" "$tests" "$chk_rc" "$nviol" "$sigs" "$out" <<'PY'
 import json, sys
 pid, i, tests, rc, nviol, sigs, out = sys.argv[1:8]
 desc = open(out + "/README.md").read().strip() if __import__("os").path.exists(out + "/README.md") else ""
@@ -45,9 +45,9 @@ json.dump({
             "signatures": [s for s in sigs.split(";") if s], "detected": int(nviol) > 0},
 }, open(out + "/meta.json", "w"), indent=1)
 PY
-  echo "[$pid-m$i] recorded in $out"
+  echo "[$pid-m$oi] recorded in $out"
 else
-  echo "[$pid-m$i] NOT confirmed (kept out of /verif/seeded)"; cat /tmp/sc-demo-$$.txt | tail -5
+  echo "[$pid-m$oi] NOT confirmed (kept out of /verif/seeded)"; cat /tmp/sc-demo-$$.txt | tail -5
 fi
 rm -f /tmp/sc-demo-$$.txt
 cleanup
